@@ -255,9 +255,16 @@ Proof.
   split; [exact B|]. split; [exact A|]. vm_compute. repeat split; reflexivity.
 Qed.
 
-(* member names holding a zero byte: the model compares names over their whole length (memcmp); the unmodified library compares with
-   strncmp in both loops of _jbl_merge_patch_node - the same on every name without a zero byte, different with one: {"a\u0000b":1}
-   merged with {"a\u0000c":2} gives {"a\u0000b":2} in the library (replayed; fixes/jpatch-merge-nul.diff, fixes/jpatch-clone-nul.diff) *)
+(* member names are compared over their whole cached length (memcmp since 662df5e): a target member is taken for a patch member iff
+   the two names are the same bytes - zero bytes included, unconditionally *)
+Theorem C16_name_compare : forall pc c, key_ok pc -> key_ok c -> (mkey_match pc c = true <-> n_key c = n_key pc).
+Proof.
+  intros pc c Kp Kc. rewrite (mkey_match_spec pc c Kp), (key_match_spec (n_key pc) c Kc). apply bytes_eqb_eq.
+Qed.
+Print Assumptions C16_name_compare.
+
+(* the comparison of before 662df5e (mkey_match_c: strncmp, which stops at a zero byte) agreed with it on names without a zero byte
+   and not otherwise: {"a\u0000b":1} merged with {"a\u0000c":2} gave {"a\u0000b":2} *)
 Theorem C16_name_compare_nul_free : forall pc c, Forall (fun x => x <> 0) (n_key c) -> mkey_match_c pc c = mkey_match pc c.
 Proof. exact mkey_match_c_nul_free. Qed.
 Print Assumptions C16_name_compare_nul_free.
